@@ -1111,3 +1111,22 @@ def matcher_candidate_order(run, R="GATE"):
     run.check(ok, R, R + "|matcher|candidate-order", mm.loc(), "the optimised matcher puts its candidates into declaration order (stable sort on rule block and rule)",
               ("the optimised matcher sorts its candidates with an unstable sort (%s): several matches of one rule can change places" % ", ".join(unstable)) if unstable else
               "match_with_ruledef_map hands over the candidates in the order of the prefix map (grouped by prefix length), the plain search in declaration order: where the first of several equally small candidates is taken as a guess (`qq {a}` and `q{s: sub} {a}` on `qq f` inside an asm block) the two switches settle on different results")
+
+
+def index_insert_unconditional(run, R="TAB-idx"):
+    """the prefix index lists every rule: `RuledefMap::insert` reaches the push of the new entry on every path (there is no path
+    on which a rule handed to it is left out - a dropped rule can only be found with the matcher optimisation switched off)"""
+    f = run.anchor(R, "RuledefMap::insert")
+    if f is None:
+        return
+    pushes = {bi for bi, t in f.calls() if re.search(r"Vec::<.*>::(push|insert)$|::push$", t.get("callee") or "")}
+    rets = {b for b in f.reachable() if f.blocks[b]["term"]["k"] == "return"}
+    seen, work = set(), [0]
+    while work:
+        x = work.pop()
+        if x in seen or x in pushes:
+            continue
+        seen.add(x)
+        work.extend(f.succs(x))
+    run.check(bool(pushes) and not (seen & rets), R, R + "|writer|every-rule-listed", f.loc(), "RuledefMap::insert lists the rule it is given on every path",
+              "RuledefMap::insert can return without having listed the rule it was given: a rule missing from the prefix index is only found with --debug-no-optimize-matcher" if pushes else "mechanism not found: the push of the new index entry")
